@@ -86,7 +86,7 @@ def required(tier):
             "arith_value_checks": 25000, "arith_refused_checks": 15000, "inplace_twins": 15000,
             "log_conv_checks": 1500, "log_pairs": 49, "parse_checks": 1500, "generated_offset_units": 200,
             "cell_mode_matrix": 2000, "rules_used": 40, "add_sub_branches": 9, "iadd_sub_branches": 9,
-            "modes": 4, "result_unit_definedness_checks": 20000, "redefined_offset_probes": 60, "reused_object_operations": 500, "unit_object_operands": 500}
+            "modes": 4, "result_unit_definedness_checks": 20000, "redefined_offset_probes": 60, "reused_object_operations": 500, "unit_object_operands": 500, "refused_inplace_conversions": 500}
 
 
 def shards(tier, seed):
@@ -952,7 +952,26 @@ def convert_cell(env, L, dst, counter="conv", extra=None, rtol=1e-9, forms=("to"
     def _ito():
         b.ito(dstc)
         return b
+    sb = snapshot(b)
     alt.append(("ito", env.outcome(_ito)))
+    if alt[-1][1][0] == "raise":
+        # a REFUSED in-place conversion leaves its target as it was (magnitude bytes and units), and so does
+        # the registry-level form with inplace=True
+        rec.count("refused_inplace_conversions")
+        if snapshot(b) != sb:
+            rec.violation("refused-inplace-conversion-changed-its-target",
+                          dict(w, before=str(sb)[:200], after=str(snapshot(b))[:200], entry="ito"),
+                          operator="ito", kinds=env.cell("to", L, RM.MQ(0, dst)).split("|", 1)[1], mode=env.modekey,
+                          magnitude=env.magkind, workload=env.workload)
+        if RM.is_array(L.x):
+            arr = L.x.copy()
+            keep = arr.copy()
+            o3 = env.outcome(lambda: env.ureg.convert(arr, env.ureg.UnitsContainer(dict(L.units)), dstc, inplace=True))
+            if o3[0] == "raise" and not (arr == keep).all() and not (RM.is_array(arr) and (arr != arr).any()):
+                rec.violation("refused-inplace-conversion-changed-its-target",
+                              dict(w, before=str(keep.tolist())[:200], after=str(arr.tolist())[:200], entry="convert(inplace=True)"),
+                              operator="convert-inplace", kinds=env.cell("to", L, RM.MQ(0, dst)).split("|", 1)[1],
+                              mode=env.modekey, magnitude=env.magkind, workload=env.workload)
     for name, o2 in alt:
         rec.count("conversion_entry_point_twins")
         if name == "ito" and RM.is_array(L.x):
